@@ -127,9 +127,12 @@ def run(ctx):
                 "random [a,b] with |a|,|b| up to 1e3 and widths 1e-3..1e3; malformed stream (even-n Simpson, n<=1, b<=a, "
                 "unknown rule); spawn stacks of depth 1..4. Non-trivial = interval other than [0,1] or n>=3; distinct by "
                 "(method, n, interval class)")
-    ctx.assumptions += ["numpy leggauss (exact to degree 2n-1 on [-1,1]) and numpy ifft are parameters of the model; their "
+    ctx.assumptions += ["numpy leggauss (exact to degree 2n-1 on [-1,1]) is a parameter of the model; its "
                         "contract is re-checked per n in 60-digit arithmetic by the oracle (a test, not a theorem)",
-                        "Clenshaw-Curtis exactness for all n is NOT a Lean theorem (partial): per-n test"]
+                        "numpy.fft.ifft is modelled by its definition (inverse DFT, MudModel ccIdft); numpy's result is compared with "
+                        "that definition on every captured call (monitor numpy_ifft_vs_definition)",
+                        "Clenshaw-Curtis: sum of weights, nodes and end weights are Lean theorems for all n; interior positivity and "
+                        "exactness to degree n-1 for all n are NOT (partial): per-n test"]
     ctx.fingerprints["mudslide/integration.py"] = fingerprint(
         "mudslide/integration.py", ["clenshaw_curtis", "midpoint", "trapezoid", "simpson", "quadrature"])
     ctx.proofs()
@@ -170,14 +173,13 @@ def run(ctx):
             extra.append(None)
         elif method == "cc":
             x, w, cap = _capture_ifft(n, a, b)
+            # the whole rule inside the model (its own inverse DFT): needs nothing captured from the implementation
+            lines.append(["quad", 6, n, fb(a), fb(b), fb(np.pi)])
+            extra.append(cap)
             if "out" not in cap:
-                # the rule did not go through np.fft.ifft this time (e.g. a result remembered from an earlier call): the model
-                # cannot be fed; the rule is judged by the oracle alone and the job leaves the correspondence
-                ctx.corr_mismatch("quad.cc", {"n": n, "a": a, "b": b}, "clenshaw_curtis(%d, %r, %r) did not call np.fft.ifft" % (n, a, b))
-                args_ = {"n": n, "a": a, "b": b, "method": method}
-                ok_, obs_, req_, text_ = oracle_rule(args_)
-                if not ok_:
-                    ctx.oracle_fail("rule:" + method, "rule", args_, obs_, req_, text_)
+                # the rule did not go through np.fft.ifft this time (a remembered result, another transform, a closed form):
+                # the post-processing cannot be fed separately; the complete model above still decides the correspondence
+                ctx.count("cc_without_numpy_ifft")
                 skipped.add((method, n, a, b))
                 continue
             lines.append(["quad", 5, n, fb(a), fb(b), fb(np.pi)] + fbs(np.real(cap["out"])))
@@ -190,8 +192,6 @@ def run(ctx):
     outs = ctx.model.run(lines)
     k = 0
     for method, n, a, b in jobs:
-        if (method, n, a, b) in skipped:
-            continue
         x, w = _quad(n, a, b, method)
         o = outs[k]
         scale_x = max(abs(a), abs(b))
@@ -215,14 +215,24 @@ def run(ctx):
                                   (" (matches the pinned weights*=0.5 variant)" if pinned_ok else ""))
         elif method == "cc":
             cap = extra[k]
-            ok1 = cmp(outs[k])
-            hm = [unfb(t) for t in outs[k + 1][1:]]
-            ok2 = allclose(hm, np.real(cap["h"]), float(np.max(np.abs(cap["h"]))), rtol=1e-12) and \
-                float(np.max(np.abs(np.imag(cap["h"])))) == 0.0
-            ctx.monitor("cc_ifft_imag_norm", float(np.linalg.norm(np.imag(cap["out"]))))
-            k += 2
-            if not (ok1 and ok2):
-                ctx.corr_mismatch("quad.cc", {"n": n, "a": a, "b": b}, "post-processing ok=%s, ifft input ok=%s" % (ok1, ok2))
+            ok0 = cmp(outs[k])          # the complete model (own inverse DFT)
+            k += 1
+            if not ok0:
+                ctx.corr_mismatch("quad.cc", {"n": n, "a": a, "b": b}, "points/weights differ from the complete Clenshaw-Curtis model")
+            if (method, n, a, b) not in skipped:
+                ok1 = cmp(outs[k])
+                hm = [unfb(t) for t in outs[k + 1][1:]]
+                ok2 = allclose(hm, np.real(cap["h"]), float(np.max(np.abs(cap["h"]))), rtol=1e-12) and \
+                    float(np.max(np.abs(np.imag(cap["h"])))) == 0.0
+                ctx.monitor("cc_ifft_imag_norm", float(np.linalg.norm(np.imag(cap["out"]))))
+                # numpy's ifft against its definition (the model's ccIdft): (1/s) sum_j h_j cos(2 pi j k / s)
+                sN = n - 1
+                jk = np.outer(np.arange(sN), np.arange(sN))
+                dft = (np.cos(2.0 * np.pi * jk / sN) @ np.real(cap["h"])) / sN
+                ctx.monitor("numpy_ifft_vs_definition", float(np.max(np.abs(dft - np.real(cap["out"])))))
+                k += 2
+                if not (ok1 and ok2):
+                    ctx.corr_mismatch("quad.cc", {"n": n, "a": a, "b": b}, "post-processing ok=%s, ifft input ok=%s" % (ok1, ok2))
         else:
             k += 1
             if not cmp(o):
